@@ -39,6 +39,8 @@ LowMemoryRescaledHmmLikelihood::LowMemoryRescaledHmmLikelihood(
     throw Exception("LowMemoryRescaledHmmLikelihood: HmmTransitionMatrix and HmmEmissionProbabilities should point toward the same HmmStateAlphabet object.");
   if (!hiddenAlphabet_->worksWith(emissionProbabilities->hmmStateAlphabet()))
     throw Exception("LowMemoryRescaledHmmLikelihood: HmmTransitionMatrix and HmmEmissionProbabilities should point toward the same HmmStateAlphabet object.");
+  if (maxSize_ == 0)
+    throw Exception("LowMemoryRescaledHmmLikelihood: maxSize must be at least 1.");
   nbStates_ = hiddenAlphabet_->getNumberOfStates();
   nbSites_ = emissionProbabilities_->getNumberOfPositions();
 
@@ -131,6 +133,12 @@ void LowMemoryRescaledHmmLikelihood::computeForward_()
   logLik_ = 0;
   size_t offset = 0;
   greater<double> cmp;
+  if (maxSize_ == 1)
+  {
+    // A chunk of one site is already complete after the initialisation:
+    logLik_ += lScales[0];
+    offset = 1;
+  }
   for (size_t i = 1; i < nbSites_; i++)
   {
     // Swap pointers:
